@@ -13,18 +13,22 @@ import "time"
 // criteria is concatenation of the lists.
 
 //@ pure
+//@ opaque
 func matchLarger(size, bound int64) bool { return bound == 0 || size > bound }
 
 //@ pure
+//@ opaque
 func matchSmaller(size, bound int64) bool { return bound == 0 || size < bound }
 
 // matchSince: unset (zero) bounds match everything; otherwise d must not be
 // before the bound.
 //
 //@ pure
+//@ opaque
 func matchSince(d, since time.Time) bool { return since.IsZero() || !d.Before(since) }
 
 //@ pure
+//@ opaque
 func matchBefore(d, before time.Time) bool { return before.IsZero() || d.Before(before) }
 
 //@ func intersectSince(t1, t2 time.Time) (result time.Time)
@@ -70,6 +74,7 @@ func NoSelfAliasing(a *SearchCriteria) bool {
 //@ func (criteria *SearchCriteria) And(other *SearchCriteria)
 //@   props C19:post,pre@call
 //@   requires criteria != nil && other != nil && criteria != other
+//@   modifies criteria
 //@   ensures old(criteria.Larger) >= 0 && other.Larger >= 0 && old(criteria.Smaller) >= 0 && other.Smaller >= 0 ==> forall size int64 :: matchLarger(size, criteria.Larger) == (matchLarger(size, old(criteria.Larger)) && matchLarger(size, other.Larger))
 //@   ensures old(criteria.Larger) >= 0 && other.Larger >= 0 && old(criteria.Smaller) >= 0 && other.Smaller >= 0 ==> forall size int64 :: matchSmaller(size, criteria.Smaller) == (matchSmaller(size, old(criteria.Smaller)) && matchSmaller(size, other.Smaller))
 //@   ensures forall d time.Time :: matchSince(d, criteria.Since) == (matchSince(d, old(criteria.Since)) && matchSince(d, other.Since))
@@ -142,3 +147,17 @@ func HasUTF8AcceptSpec(set CapSet) bool {
 //@   ensures c == CapLiteralPlus ==> result == HasLiteralPlusSpec(set)
 //@   ensures c == CapIMAP4rev2 ==> result == HasIMAP4rev2Spec(set)
 //@   ensures c == CapUTF8Accept ==> result == HasUTF8AcceptSpec(set)
+
+// MatchLarger / MatchSmaller: exported names of the size matcher for other packages' contracts.
+//
+//@ pure
+func MatchLarger(size, bound int64) bool { return matchLarger(size, bound) }
+
+//@ pure
+func MatchSmaller(size, bound int64) bool { return matchSmaller(size, bound) }
+
+//@ pure
+func MatchSince(d, since time.Time) bool { return matchSince(d, since) }
+
+//@ pure
+func MatchBefore(d, before time.Time) bool { return matchBefore(d, before) }
